@@ -112,6 +112,10 @@ class BaseG2Ciphersuite(ABC):
     @staticmethod
     def KeyValidate(PK: BLSPubkey) -> bool:
         try:
+            # a public key is exactly 48 bytes: the decoder only looks at the low
+            # 384 bits, so longer strings would otherwise validate
+            if not BaseG2Ciphersuite._is_valid_pubkey(PK):
+                return False
             pubkey_point = pubkey_to_G1(PK)
         except (ValidationError, ValueError, AssertionError):
             return False
